@@ -43,6 +43,7 @@ type Program struct {
 	Contracts map[string]*Contract
 	LoadWarnings []string
 	KnownFams map[string]int
+	errTab    map[string]int64
 }
 
 func LoadProgram(repo string, patterns []string) (*Program, error) {
@@ -236,4 +237,17 @@ func (pr *Program) ResolveIfaceMethod(iface types.Type, method string, hint stri
 	}
 	pr.implMemo[key] = res
 	return res
+}
+
+// ErrConst interns a package-level error value as a distinct non-zero constant.
+func (pr *Program) ErrConst(name string) *Term {
+	if pr.errTab == nil {
+		pr.errTab = map[string]int64{}
+	}
+	if c, ok := pr.errTab[name]; ok {
+		return IntC(c)
+	}
+	c := int64(-1000 - len(pr.errTab))
+	pr.errTab[name] = c
+	return IntC(c)
 }
